@@ -980,6 +980,30 @@ where
     }
 }
 
+#[cfg(feature = "verif-hooks")]
+impl<T, S> HashSet<T, S> {
+    /// Read-only snapshot of the resize state (verification hook).
+    pub fn verif_state(&self) -> crate::map::VerifState {
+        self.map.verif_state()
+    }
+}
+
+#[cfg(feature = "verif-hooks")]
+impl<T, S> HashSet<T, S>
+where
+    T: Eq + Hash,
+    S: BuildHasher,
+{
+    /// Which backing table `value` currently lives in (verification hook).
+    pub fn verif_locate<Q: ?Sized>(&self, value: &Q) -> crate::map::VerifLoc
+    where
+        T: Borrow<Q>,
+        Q: Hash + Eq,
+    {
+        self.map.verif_locate(value)
+    }
+}
+
 impl<T, S> PartialEq for HashSet<T, S>
 where
     T: Eq + Hash,
